@@ -627,16 +627,43 @@ def rule_schema_binary(m):
         tt = Terms(f)
         disp = f.display()
         sd, _ = _stream_var(f)
+        outer = f
+        graphs = {('var', f.params[0])}
+        functors = {}
+        if sd is None:
+            # the documented writer may hand (graph, file name, label functor) to a helper that owns stream and loop
+            hs = []
+            for n in f.nodes:
+                if n['k'] == 'CallExpr' and 'callee' in n and f.unit.decl(n['callee'])['tname'].startswith(IO):
+                    h = f.unit.function_for_decl(n['callee'])
+                    a = [tt.t(x) for x in n['args']]
+                    if h is not None and ('var', f.params[0]) in a and len(a) == len(h.params):
+                        hs.append((h, a))
+            if len(hs) == 1 and _stream_var(hs[0][0])[0] is not None:
+                h, a = hs[0]
+                for prm, arg in zip(h.params, a):
+                    if arg == ('var', outer.params[0]):
+                        graphs.add(('var', prm))
+                    while arg[0] in ('ctor', 'cast') and arg[2] and (arg[0] == 'cast' or len(arg[2]) == 1):
+                        arg = arg[2][0] if arg[0] == 'ctor' else arg[2]
+                    if arg[0] == 'lambda':
+                        functors[('var', prm)] = f.unit.function_for_decl(arg[1])
+                f = h
+                tt = Terms(f)
+                sd, _ = _stream_var(f)
         loops = [n for n in f.nodes if n['k'] == 'CXXForRangeStmt' and tt.t(n['rangeinit'])[0] == 'mcall' and
-                 tt.t(n['rangeinit'])[1].endswith('::edges') and tt.t(n['rangeinit'])[2] == ('var', f.params[0])]
+                 tt.t(n['rangeinit'])[1].endswith('::edges') and tt.t(n['rangeinit'])[2] in graphs]
         why = None
         seq = []
         if len(loops) != 1:
-            why = 'expected one loop over graph.edges() in the writer itself'
+            why = 'expected one loop over graph.edges() in the writer (or in the one helper it hands graph and file name to)'
         else:
             e = ('var', loops[0]['loopvar'])
             body = set(f.descendants(loops[0]['body']))
             first, second = ('member', e, 'std::pair::first'), ('member', e, 'std::pair::second')
+
+            def label_ok(lab):
+                return lab[0] == 'mcall' and lab[1].endswith('::getEdgeLabel') and lab[2] in graphs and lab[3][:2] == (first, second)
             for nid in sorted(body):
                 n = f.nodes[nid]
                 if n['k'] == 'CallExpr' and 'callee' in n and f.unit.decl(n['callee'])['tname'] == WRITE:
@@ -645,17 +672,32 @@ def rule_schema_binary(m):
                                 f.unit.function_for_decl(n['callee']).targs if f.unit.function_for_decl(n['callee']) else '?'))
                 elif n['k'] == 'CXXOperatorCallExpr' and 'callee' in n and f.unit.decl(n['callee']).get('op') == '()':
                     a = [tt.t(x) for x in n['args']]
-                    if len(a) == 3 and a[1] == ('var', sd):
-                        lab = a[2]
-                        okl = lab[0] == 'mcall' and lab[1].endswith('::getEdgeLabel') and lab[2] == ('var', f.params[0]) and \
-                            lab[3][:2] == (first, second)
-                        seq.append(('codec', 'label(first,second)' if okl else '?', ''))
+                    if a and a[0] in functors and functors[a[0]] is not None:
+                        # a label functor supplied by the documented writer: read its body with (stream, edge) substituted
+                        from .rules_pair import subst
+                        L = functors[a[0]]
+                        ltt = Terms(L)
+                        sub = {('var', prm): arg for prm, arg in zip(L.params, a[1:])}
+                        sparam = [('var', prm) for prm, arg in zip(L.params, a[1:]) if arg == ('var', sd)]
+                        inner = []
+                        for ln in L.nodes:
+                            if ln['k'] == 'CXXOperatorCallExpr' and 'callee' in ln and L.unit.decl(ln['callee']).get('op') == '()':
+                                la = [subst(ltt.t(x), sub) for x in ln['args']]
+                                if len(la) == 3 and la[1] == ('var', sd):
+                                    inner.append(('codec', 'label(first,second)' if label_ok(la[2]) else '?', ''))
+                        uses = [x for x in L.nodes if x['k'] == 'DeclRefExpr' and sparam and ('var', x['d']) == sparam[0]]
+                        if len(uses) != len(inner) or any(x['k'] in ('CallExpr', 'CXXMemberCallExpr') for x in L.nodes
+                                                          if 'callee' in x and 'getEdgeLabel' not in L.unit.decl(x['callee'])['name']):
+                            inner.append(('codec', '?', ''))
+                        seq.extend(inner)
+                    elif len(a) == 3 and a[1] == ('var', sd):
+                        seq.append(('codec', 'label(first,second)' if label_ok(a[2]) else '?', ''))
             # every use of the stream is one of: decl, verify, these calls
             others = [n for n in f.nodes if n['k'] == 'DeclRefExpr' and n['d'] == sd and n['i'] in body and
                       not any(n['i'] in f.descendants(c) for c in body if f.nodes[c]['k'] in ('CallExpr', 'CXXOperatorCallExpr')
                               and 'callee' in f.nodes[c] and (f.unit.decl(f.nodes[c]['callee'])['tname'] == WRITE or
                                                               f.unit.decl(f.nodes[c]['callee']).get('op') == '()'))]
-            want = [('prim', 'first'), ('prim', 'second')] + ([] if _is_nolabel(f) else [('codec', 'label(first,second)')])
+            want = [('prim', 'first'), ('prim', 'second')] + ([] if _is_nolabel(outer) else [('codec', 'label(first,second)')])
             if [s[:2] for s in seq] != want:
                 why = 'the record written is %s, expected %s' % ([s[:2] for s in seq], want)
             elif others:
@@ -666,6 +708,7 @@ def rule_schema_binary(m):
             outside = [n for n in f.nodes if n['k'] == 'DeclRefExpr' and n['d'] == sd and n['i'] not in body]
             if not why and len(outside) > 1:   # the verifyStreamOpened argument
                 why = 'the stream is written outside the record loop (header or trailer)'
+        f = outer
         if why:
             res.fail(Finding('F-IO.SCHEMA.bin', disp, 'writer record', f.where(), why))
         else:
